@@ -1,6 +1,7 @@
 package main
 
 import (
+	"go/types"
 	"fmt"
 	"go/token"
 	"strings"
@@ -871,4 +872,273 @@ func extraC08NoSecondRecord(c *Ctx, r *Report) {
 	}
 	addMutants(Mutant{Prop: "C08", Name: "caller-records-managers-error", File: "internal/adapter/unifier/lifecycle_unifier.go", Rule: "C08-R11",
 		Old: "	_, unifyErr := u.UnifyModels(ctx, discoveredModels, endpoint)\n	if unifyErr != nil {\n", New: "	_, unifyErr := u.UnifyModels(ctx, discoveredModels, endpoint)\n	if unifyErr != nil {\n		u.endpointManager.RecordFailure(endpointURL, unifyErr)\n"})
+}
+
+// ---------- C09-R8: model names are resolved by whole-name equality ----------
+func init() { registerExtra("C09", extraC09Resolve) }
+
+func extraC09Resolve(c *Ctx, r *Report) {
+	r.Rule("C09-R8", "the functions that resolve a requested model name to catalogue entries or endpoints (ResolveModel / ResolveAlias / ResolveByName, GetEndpointsForModel, IsModelAvailable, GetRoutableEndpointsForModel and their package-local callees) compare names as wholes (map lookup, ==, EqualFold): no prefix / suffix / substring matching, which would route a request for `llama3` to an endpoint that only lists `llama3:70b`", 4)
+	entryNames := map[string]bool{"ResolveModel": true, "ResolveAlias": true, "ResolveByName": true, "GetEndpointsForModel": true, "IsModelAvailable": true, "GetRoutableEndpointsForModel": true, "GetRoutableEndpoints": true}
+	inScope := func(f *ssa.Function) bool {
+		pp := fnPkgPath(f)
+		return strings.Contains(pp, "internal/adapter/unifier") || strings.Contains(pp, "internal/adapter/registry")
+	}
+	for _, f := range c.Funcs {
+		if f.Parent() != nil || !inScope(f) || !entryNames[f.Name()] || f.Signature.Recv() == nil {
+			continue
+		}
+		seen := map[*ssa.Function]bool{}
+		var bad ssa.Instruction
+		var badFn *ssa.Function
+		var visit func(g *ssa.Function, d int)
+		visit = func(g *ssa.Function, d int) {
+			if g == nil || seen[g] || d == 0 || g.Blocks == nil {
+				return
+			}
+			seen[g] = true
+			for _, h := range withAnon(g) {
+				eachInstr(h, func(in ssa.Instruction) {
+					cc := getCall(in)
+					if cc == nil {
+						return
+					}
+					ci := describeCall(cc)
+					if ci.Pkg == "strings" && (ci.Name == "HasPrefix" || ci.Name == "HasSuffix" || ci.Name == "Contains" || ci.Name == "Index" || strings.HasPrefix(ci.Name, "Cut") || strings.HasPrefix(ci.Name, "Trim")) {
+						bad, badFn = in, h
+					}
+					if sc := cc.StaticCallee(); sc != nil && inScope(sc) && !entryNames[sc.Name()] {
+						visit(sc, d-1)
+					}
+				})
+			}
+		}
+		visit(f, 4)
+		key := fname(f) + ":whole-name-comparison"
+		if bad != nil {
+			r.Bad("C09-R8", key, bad.Pos(), "model-name resolution uses "+describeCall(getCall(bad)).Name+" (in "+fname(badFn)+"): a name that only shares a prefix or fragment with a listed model is treated as that model, and the request is routed to an endpoint that does not serve what was asked for")
+		} else {
+			r.OK("C09-R8", key, f.Pos(), "no prefix/suffix/substring matching on the resolution path")
+		}
+	}
+	addMutants(Mutant{Prop: "C09", Name: "resolve-by-prefix", File: "internal/adapter/unifier/default_unifier.go", Rule: "C09-R8",
+		Old: "	model, found := u.store.ResolveByName(nameOrID)\n	if !found {", New: "	model, found := u.store.ResolveByName(nameOrID)\n	if !found {\n		for _, m := range u.store.GetAllModels() {\n			if strings.HasPrefix(m.ID, nameOrID) {\n				return m, nil\n			}\n		}\n	}\n	if !found {",
+		Edits: []Edit{{"internal/adapter/unifier/default_unifier.go", "	\"fmt\"\n", "	\"fmt\"\n	\"strings\"\n"}}})
+}
+
+// ---------- C10-R7: statistics are rebuilt into fresh containers ----------
+func init() { registerExtra("C10", extraC10Stats) }
+
+func extraC10Stats(c *Ctx, r *Report) {
+	r.Rule("C10-R7", "the registry's statistics are recomputed from the current listings into containers made for that recomputation: a map stored into (or measured for) a field of the stats struct is created in the same call, never carried over from the previous statistics — otherwise endpoints that were removed, or whose latest listing is empty, keep being counted", 2)
+	for _, f := range c.Funcs {
+		if f.Parent() != nil || !strings.HasSuffix(fnPkgPath(f), pkgRegistry) || f.Signature.Recv() == nil {
+			continue
+		}
+		eachInstr(f, func(in ssa.Instruction) {
+			st, ok := in.(*ssa.Store)
+			if !ok {
+				return
+			}
+			fa, ok := st.Addr.(*ssa.FieldAddr)
+			if !ok {
+				return
+			}
+			inner, ok := fa.X.(*ssa.FieldAddr)
+			if !ok {
+				return
+			}
+			o, fld, _ := fieldOf(inner)
+			if cfield(o, fld) != "stats" {
+				return
+			}
+			_, sf, _ := fieldOf(fa)
+			// the value, or the map it measures
+			var m ssa.Value
+			if _, isMap := st.Val.Type().Underlying().(*types.Map); isMap {
+				m = st.Val
+			} else if mv := lenOf(st.Val); mv != nil {
+				if _, isMap := mv.Type().Underlying().(*types.Map); isMap {
+					m = mv
+				}
+			}
+			if m == nil {
+				return
+			}
+			key := fmt.Sprintf("%s:stats.%s", fname(f), sf.Name())
+			if freshMap(m, 5) {
+				r.OK("C10-R7", key, in.Pos(), "computed from a map made in this call")
+			} else {
+				r.Bad("C10-R7", key, in.Pos(), "the statistic is taken from a map that outlives the recomputation (loaded from the registry's own state): entries for endpoints that have since been removed or emptied are never dropped, so the reported counts drift from the listings")
+			}
+		})
+	}
+	addMutants(Mutant{Prop: "C10", Name: "stats-map-reused", File: "internal/adapter/registry/memory_registry.go", Rule: "C10-R7",
+		Old: "	modelsPerEndpoint := make(map[string]int)\n\n	r.endpointModels.Range(", New: "	modelsPerEndpoint := r.stats.ModelsPerEndpoint\n	if modelsPerEndpoint == nil {\n		modelsPerEndpoint = make(map[string]int)\n	}\n\n	r.endpointModels.Range("})
+}
+
+// freshMap: every definition reaching v is a make/literal in this function.
+func freshMap(v ssa.Value, d int) bool {
+	if v == nil || d == 0 {
+		return false
+	}
+	switch x := v.(type) {
+	case *ssa.MakeMap:
+		return true
+	case *ssa.Phi:
+		for _, e := range x.Edges {
+			if !freshMap(e, d-1) {
+				return false
+			}
+		}
+		return len(x.Edges) > 0
+	case *ssa.ChangeType:
+		return freshMap(x.X, d-1)
+	case *ssa.UnOp:
+		if al, ok := x.X.(*ssa.Alloc); ok {
+			st := cellStores(al)
+			for _, s := range st {
+				if !freshMap(s, d-1) {
+					return false
+				}
+			}
+			return len(st) > 0
+		}
+	}
+	return false
+}
+
+// ---------- C10-R8: a cleared filter override falls back to the endpoint's own filter ----------
+func init() { registerExtra("C10", extraC10FilterOverride) }
+
+func extraC10FilterOverride(c *Ctx, r *Report) {
+	r.Rule("C10-R8", "the discovery service's per-endpoint filter overrides never make a nil entry look like a filter: either the setter stores a pointer only under `!= nil` (and deletes otherwise), or the getter returns a looked-up override only under `!= nil`; otherwise clearing an override leaves `exists == true` with a nil filter and the endpoint's own include/exclude filter is silently skipped", 1)
+	const pkg = "internal/adapter/discovery"
+	isOverrideMap := func(v ssa.Value) bool {
+		return mentionsField(v, pkg, "ModelDiscoveryService", "endpointFilters", 2)
+	}
+	nonNilFact := func(b *ssa.BasicBlock, v ssa.Value) bool {
+		for _, cf := range normFacts(condFacts(b)) {
+			bo, ok := cf.Cond.(*ssa.BinOp)
+			if !ok || !isNilConst(bo.Y) || bo.X != v {
+				continue
+			}
+			if (bo.Op == token.NEQ && cf.True) || (bo.Op == token.EQL && !cf.True) {
+				return true
+			}
+		}
+		return false
+	}
+	setterGuarded, getterGuarded := true, true
+	nSet, nGet := 0, 0
+	var pos token.Pos
+	for _, f := range c.Funcs {
+		if !strings.HasSuffix(fnPkgPath(f), pkg) {
+			continue
+		}
+		eachInstr(f, func(in ssa.Instruction) {
+			switch x := in.(type) {
+			case *ssa.MapUpdate:
+				if !isOverrideMap(x.Map) {
+					return
+				}
+				if _, isPtr := x.Value.Type().Underlying().(*types.Pointer); !isPtr {
+					return
+				}
+				if isNilConst(x.Value) {
+					setterGuarded = false
+					return
+				}
+				nSet++
+				pos = in.Pos()
+				if !nonNilFact(in.Block(), x.Value) {
+					setterGuarded = false
+				}
+			case *ssa.Lookup:
+				if !x.CommaOk || !isOverrideMap(x.X) {
+					return
+				}
+				for _, ref := range *x.Referrers() {
+					ex, ok := ref.(*ssa.Extract)
+					if !ok || ex.Index != 0 {
+						continue
+					}
+					for _, r2 := range *ex.Referrers() {
+						if ret, ok := r2.(*ssa.Return); ok {
+							nGet++
+							if !nonNilFact(ret.Block(), ex) {
+								getterGuarded = false
+							}
+						}
+					}
+				}
+			}
+		})
+	}
+	key := "ModelDiscoveryService.endpointFilters:nil-override"
+	switch {
+	case nSet == 0 && nGet == 0:
+		r.Undecided("C10-R8", key, token.NoPos, "no store into / returned lookup from the filter override map found")
+	case (nSet > 0 && setterGuarded) || (nGet > 0 && getterGuarded):
+		r.OK("C10-R8", key, pos, fmt.Sprintf("setter stores only non-nil overrides=%v; getter returns only non-nil overrides=%v", nSet > 0 && setterGuarded, nGet > 0 && getterGuarded))
+	default:
+		r.Bad("C10-R8", key, pos, "a nil filter can be stored as an override and is returned as if it were one: after an override is cleared the endpoint's own model filter is no longer applied and excluded models enter the catalogue")
+	}
+	addMutants(Mutant{Prop: "C10", Name: "nil-override-stored", File: "internal/adapter/discovery/service.go", Rule: "C10-R8",
+		Old: "	if filterConfig != nil {\n		s.endpointFilters[endpointName] = filterConfig\n	} else {\n		delete(s.endpointFilters, endpointName)\n	}", New: "	s.endpointFilters[endpointName] = filterConfig"})
+}
+
+// ---------- C05-R9: an ErrorWriter writes the status it was handed ----------
+func init() {
+	registerExtra("C05", extraC05ErrorWriterStatus)
+	// the failure classification of the error wrapper decides whether an endpoint is taken out of rotation (C03)
+	registerExtra("C03", func(c *Ctx, r *Report) {
+		r.WithAlias(map[string]string{"C04-R3": "C03-R11"}, func() { checkC04(c, r) })
+	})
+	// the candidate list must come from the live healthy query, not from a snapshot a failed attempt cannot invalidate (C04)
+	registerExtra("C04", func(c *Ctx, r *Report) {
+		r.WithAlias(map[string]string{"C03-R1": "C04-R9"}, func() { checkC03(c, r) })
+	})
+	// headers copied under runtime names onto a re-encoded body (Content-Length of the backend's body!) make the
+	// translated error unreadable (C05)
+	registerExtra("C05", func(c *Ctx, r *Report) {
+		r.WithAlias(map[string]string{"C14-R6": "C05-R8"}, func() { extraC14Wave2(c, r) })
+	})
+	// the gauge bracket must survive panics, or least-connections avoids an idle endpoint for ever (C06)
+	registerExtra("C06", func(c *Ctx, r *Report) {
+		r.WithAlias(map[string]string{"C19-R1": "C06-R8"}, func() { checkC19(c, r) })
+	})
+}
+
+func extraC05ErrorWriterStatus(c *Ctx, r *Report) {
+	r.Rule("C05-R9", "every implementation of translator.ErrorWriter.WriteError passes its own status parameter, unchanged, to ResponseWriter.WriteHeader: the relaying sites hand it the backend's status (C05-R4), so a writer that maps 'uncommon' statuses to another one would turn a backend 422/409/504 into a different answer (and could turn an error into a 2xx)", 1)
+	n := 0
+	for _, f := range c.Funcs {
+		if f.Parent() != nil || f.Name() != "WriteError" || f.Signature.Recv() == nil || !c.inRepo(f) || f.Blocks == nil {
+			continue
+		}
+		sig := f.Signature
+		if sig.Params().Len() != 3 || !isNamed(sig.Params().At(0).Type(), "net/http", "ResponseWriter") || sig.Params().At(2).Type().String() != "int" {
+			continue
+		}
+		status := f.Params[len(f.Params)-1]
+		eachInstr(f, func(in ssa.Instruction) {
+			cc := getCall(in)
+			if cc == nil || !cc.IsInvoke() || cc.Method.Name() != "WriteHeader" || len(cc.Args) != 1 {
+				return
+			}
+			n++
+			key := fname(f) + ":WriteHeader-status"
+			if cc.Args[0] == ssa.Value(status) {
+				r.OK("C05-R9", key, in.Pos(), "status parameter written unchanged")
+			} else {
+				r.Bad("C05-R9", key, in.Pos(), "the error writer answers with a status other than the one it was given (looked up, defaulted or recomputed): a relayed backend status is rewritten on its way to the client")
+			}
+		})
+	}
+	if n == 0 {
+		r.Unresolved("C05-R9", "implementation of translator.ErrorWriter.WriteError calling WriteHeader")
+	}
+	addMutants(Mutant{Prop: "C05", Name: "errorwriter-defaults-status", File: "internal/adapter/translator/anthropic/translator.go", Rule: "C05-R9",
+		Old: "	w.WriteHeader(statusCode)\n\n	if encErr := json.NewEncoder(w).Encode(errorResp)", New: "	if errorType == \"api_error\" {\n		statusCode = http.StatusInternalServerError\n	}\n	w.WriteHeader(statusCode)\n\n	if encErr := json.NewEncoder(w).Encode(errorResp)"})
 }
